@@ -42,7 +42,7 @@ ASSUMPTIONS = [
     "the OSCCA (SM2) and PQC key types are not installed here and are not exercised",
 ]
 FLOORS = {"lz_coord": 0.03, "lz_rs": 0.15, "lz_total:1-3": 0.01, "pw": 0.04, "der_sig": 0.06, "prehashed": 0.03, "pad:pss": 0.015,
-          "curve:secp521r1": 0.08, "der_len_eq_raw_len": 0.005, "der_len_eq_own_raw_len": 0.002, "cli:convert:RAW": 0.002}
+          "curve:secp521r1": 0.08, "der_len_eq_raw_len": 0.005, "der_len_eq_own_raw_len": 0.002, "cli:convert:RAW": 0.001}
 
 CURVES = ("secp256r1", "secp384r1", "secp521r1")
 DEFAULT_ALG = {"secp256r1": "sha256", "secp384r1": "sha384", "secp521r1": "sha512"}
